@@ -19,4 +19,53 @@ theorem gen_trig_ok : TablesOK Gen.trig :=
     pos == length-1)` only, on every probed instance (the model's `localEsc` has that shape). -/
 theorem gen_localEsc_consistent : Gen.turtle_localEsc_consistent = true := by decide
 
+/-! ### Non-vacuity of the hypotheses, and the repaired behaviour at the defect witnesses (D4–D6) -/
+
+/-- A local name exercising every rule: leading '-', inner '.', '%', ':', '~', final '.'. -/
+example : PNLocalOK Gen.turtle (asc "-a.b%c:~d.") = true := by decide
+example : format_PN_LOCAL Gen.turtle (asc "-a.b%c:~d.") = some (asc "\\-a.b\\%c:\\~d\\.") := by decide
+example : prefixOK Gen.turtle (asc "a.b-c") = true ∧ prefixOK Gen.turtle [] = true := by decide
+example : LocalStop Gen.turtle .eof (asc " .") ∧ LocalStop Gen.turtle .eof [] ∧
+    LocalStop Gen.trig .ioerr (asc "\n") := by
+  refine ⟨?_, rfl, ?_⟩ <;> simp only [LocalStop] <;> decide
+example : NumStop .eof (asc " .") ∧ NumStop .eof (asc ". ") ∧ NumStop .eof (asc ";") := by
+  refine ⟨?_, ?_, ?_⟩ <;> simp only [NumStop] <;> decide
+example : langOK (asc "en-Latn-US-x-a1") = true := by decide
+example : labelOK Gen.turtle (asc "b0.x-1") = true := by decide
+
+/-- D5, repaired: a leading '-' is escaped; a non-PN_CHARS rune that is an IRI character (U+00D7)
+    makes the name unrepresentable (the encoder then writes `<…>`); a rune that is not an IRI
+    character at all (space) is percent-encoded — the one place where the written name differs from
+    the input, excluded by `PNLocalOK` (and by well-formedness of the IRI). -/
+theorem d5_witness :
+    format_PN_LOCAL Gen.turtle (asc "-a") = some (asc "\\-a") ∧
+    format_PN_LOCAL Gen.turtle [0x61, 0xd7] = none ∧
+    format_PN_LOCAL Gen.turtle [0xb7, 0x61] = none ∧
+    format_PN_LOCAL Gen.turtle (asc "a b") = some (asc "a%20b") ∧
+    PNLocalOK Gen.turtle (asc "a b") = false := by decide
+
+/-- D6, repaired: `:\.` is the local name "." (the unrepaired code indexed a slice at −1 here);
+    `:c\.` keeps its dot; an unescaped final '.' is handed back. Both packages. -/
+theorem d6_witness :
+    (∀ T ∈ [Gen.turtle, Gen.trig],
+      (match producePrefixedName T .eof (asc ":\\. .") with
+        | .ok v r => v = ([], asc ".") ∧ r = asc " ." | _ => False) ∧
+      (match producePrefixedName T .eof (asc ":c\\. .") with
+        | .ok v r => v = ([], asc "c.") ∧ r = asc " ." | _ => False) ∧
+      (match producePrefixedName T .eof (asc "p:c. ") with
+        | .ok v r => v = (asc "p", asc "c") ∧ r = asc ". " | _ => False)) := by decide
+
+/-- D4, repaired: no shorthand for xsd:long, none when the lexical form is not a token of the
+    datatype's grammar rule. -/
+theorem d4_witness :
+    literalShorthand xsdLong (asc "5") = false ∧
+    literalShorthand xsdDecimal (asc "5") = false ∧
+    literalShorthand xsdBoolean (asc "1") = false ∧
+    literalShorthand xsdInteger (asc "abc") = false ∧
+    literalShorthand xsdDouble (asc "INF") = false ∧
+    literalShorthand xsdInteger (asc "+5") = true ∧
+    literalShorthand xsdDecimal (asc ".5") = true ∧
+    literalShorthand xsdDouble (asc "5.e0") = true ∧
+    literalShorthand xsdBoolean (asc "false") = true := by decide
+
 end RdfModel.C02
